@@ -256,6 +256,9 @@ class Term:
             return Model(self, other)
         elif isinstance(other, Model):
             return Model(self) + other
+        elif isinstance(other, (Intercept, NegatedIntercept)):
+            # (x + 1 | g), (x + 0 | g)
+            return Model(self, other)
         else:  # pragma: no cover
             return NotImplemented
 
@@ -281,6 +284,9 @@ class Term:
                 return Model()
             else:
                 return self
+        elif isinstance(other, Intercept):
+            # (x - 1 | g) removes the intercept like (x + 0 | g)
+            return Model(self, NegatedIntercept())
         else:  # pragma: no cover
             return NotImplemented
 
